@@ -158,6 +158,9 @@ func runC18(r *vk.Run) {
 		`{job="j"} | json o, o2="o", o3="o"`, `{job="j"} | json a="x.y", b="x.y", c="x"`, `{job="j"} | json | drop msg`, `{job="j"} | json | keep a, x, o`,
 		`{job="j"} | logfmt | drop msg`, `{job="j"} | json | label_format p="{{.a}}", q="{{.b}}", r="{{.o}}"`, `{job="j"} | json | label_format z=a, y=b`,
 		`{job="j"} | regexp "(?P<a>\\w+) (?P<b>\\w+)" | drop msg`, `sum by (a, b) (count_over_time({job="j"} | json | drop msg [10s]))`,
+		// templates that read the current line / timestamp: every evaluation starts from its own records
+		`{job="j"} | line_format "<{{ __line__ }}>" | drop msg`, `{job="j"} | label_format seen="{{ __timestamp__ | unixEpochNanos }}", l="{{ __line__ }}" | drop msg`,
+		`sum by (seen) (count_over_time({job="j"} | label_format seen="{{ __line__ }}" | drop msg [10s]))`,
 		// keys of one object that collide once sanitised (u.id, u_id, u-id): whichever wins, it wins every time
 		`sum by (u_id) (count_over_time({job="j"} | json | drop msg [10s]))`, `{job="j"} | json | line_format "{{ .u_id }}" | keep u_id`,
 		`avg(sum_over_time({job="j"} | json | drop msg | unwrap n [10s])) by (a)`, `stddev without (a) (sum_over_time({job="j"} | json | drop msg | unwrap n [10s]))`,
